@@ -136,6 +136,9 @@ def script_text(spec: Spec, variant: int, dofile: str, gates: bool = False) -> s
         return core
 
     L.append('c=""')
+    if spec.noise == 8 and deps:
+        # "checking for x... " -- a partial line, and the nested build starts right behind it
+        L.append('printf "L $1 7 partial line before the dependencies: " >&2')
     if deps:
         if spec.split:
             for d in deps:
@@ -144,6 +147,8 @@ def script_text(spec: Spec, variant: int, dofile: str, gates: bool = False) -> s
         else:
             L.append(ifchange(deps))
             kp()
+        if spec.noise == 8:
+            L.append('echo "done" >&2')     # ends the partial line if nothing was written in between
         for d in deps:
             L.append(f'c="$c$(cat "{d}")"')
     if spec.sel:
@@ -213,6 +218,8 @@ def script_text(spec: Spec, variant: int, dofile: str, gates: bool = False) -> s
     sync("end")
     if spec.noise:
         L.append('echo "L $1 4 after dependencies" >&2')
+        if spec.noise == 16:
+            L.append('printf "L $1 8 bad \\377 byte\\n" >&2')      # a byte that is not UTF-8 (a compiler quoting Latin-1 source)
         if spec.noise == 4:
             L.append('printf "L $1 6 no newline at the end" >&2')   # the script's last output is an unterminated line
     if gates:
